@@ -7,10 +7,13 @@ mod exec;
 mod framework;
 mod gen;
 mod hashseed;
+mod net;
 mod outcome;
+mod printer;
 mod props;
 mod refcodec;
 mod rng;
+mod tcp;
 mod wire;
 
 use std::path::PathBuf;
@@ -31,6 +34,10 @@ macro_rules! with_prop {
         match $id {
             "C02" => {
                 let $p = props::c02::C02;
+                $body
+            }
+            "C11" => {
+                let $p = props::c11::C11;
                 $body
             }
             "C05" => {
